@@ -27,7 +27,7 @@ CLASSES = {'sanitizer', 'crash', 'ledger', 'leak', 'junk-dependence', 'reuse', '
 
 
 def gen_scn(rng):
-    return scenario.gen_scenario(rng)
+    return scenario.gen_scenario(rng, want={'flavors': ['nr', 'nr', 'r', 'r', 'c99']})
 
 
 def gen_plan(rng, sc):
